@@ -18,6 +18,7 @@
 //!                         exit-silent | status-only | truncated-model | truncated-model-midnumber |
 //!                         garbage-line | garbage-after-reply | unknown-status | wrong-var | double-status |
 //!                         double-status-unsat-first | crash | exit-code | zero-mid-model |
+//!                         truncated-model-after-minus | truncated-model-at-byte (with cut=<permille>) |
 //!                         non-utf8-comment (an honest reply preceded by a comment line that is not UTF-8)
 //!   lenient               accept a malformed instance (ignore header mismatches) instead of failing
 
@@ -31,6 +32,7 @@ struct Opts {
     pad_after: bool,
     errpad: usize,
     errpad_after: bool,
+    cut_permille: usize,
     vsplit: usize,
     crlf: bool,
     mode: String,
@@ -47,6 +49,7 @@ fn parse_opts() -> Opts {
         pad_after: false,
         errpad: 0,
         errpad_after: false,
+        cut_permille: 500,
         vsplit: 0,
         crlf: false,
         mode: "normal".to_string(),
@@ -73,6 +76,8 @@ fn parse_opts() -> Opts {
             };
             o.errpad = n.parse().unwrap_or(0);
             o.errpad_after = rest == "after";
+        } else if let Some(v) = a.strip_prefix("cut=") {
+            o.cut_permille = v.parse().unwrap_or(500);
         } else if let Some(v) = a.strip_prefix("vsplit=") {
             o.vsplit = v.parse().unwrap_or(0);
         } else if a == "crlf" {
@@ -408,6 +413,7 @@ fn main() {
             let needs_model = matches!(
                 k,
                 "status-only" | "truncated-model" | "truncated-model-midnumber" | "wrong-var" | "crash" | "zero-mid-model"
+                    | "truncated-model-after-minus" | "truncated-model-at-byte"
             );
             let k = if needs_model && verdict != Some(true) {
                 kind = format!("fault:{}-degraded-to-silence", k);
@@ -468,6 +474,24 @@ fn main() {
                     reply.extend_from_slice(status_line(true).as_bytes());
                     let lits: Vec<i32> = if model.is_empty() { (1..=n_vars.max(1) as i32).collect() } else { model.clone() };
                     reply.extend_from_slice(v_lines(&lits, true).as_bytes());
+                }
+                "truncated-model-after-minus" | "truncated-model-at-byte" => {
+                    // the honest reply cut inside the value lines: right after the minus sign of the last
+                    // negative literal, or at the byte position given by cut=<permille>
+                    reply.extend_from_slice(status_line(true).as_bytes());
+                    let lits: Vec<i32> = if model.is_empty() { (1..=n_vars.max(1) as i32).map(|v| -v).collect() } else { model.clone() };
+                    let full = v_lines(&lits, true);
+                    let cut = if k == "truncated-model-after-minus" {
+                        match full.rfind('-') {
+                            Some(p) => p + 1,
+                            None => full.trim_end().len().saturating_sub(2),
+                        }
+                    } else {
+                        // never the whole text: at least the final "0" and its line end are lost
+                        let body = full.trim_end().len().saturating_sub(1);
+                        (body * o.cut_permille.min(1000)) / 1000
+                    };
+                    reply.extend_from_slice(&full.as_bytes()[..cut.min(full.len())]);
                 }
                 "zero-mid-model" => {
                     // a value line with a terminating zero in its middle and another at its end
